@@ -283,6 +283,20 @@ func ruleBatchBuffer(c *Ctx) {
 		}}, newSettledEv(sr, "flush", callMatcher(F(flush)))}, all, "a save returns success only with the region in the buffer and no failed flush")
 }
 
+// ruleLoadedOnceAfterSuccess: LoadRegionsOnce remembers "loaded" only after
+// the load returned without an error; a failed first load is repeated.
+func ruleLoadedOnceAfterSuccess(c *Ctx) {
+	P := c.P
+	rule := c.Prop + "/load-prunes"
+	fn := P.Method("server/core", "Storage", "LoadRegionsOnce")
+	loaded := P.Field("server/core", "Storage", "regionLoaded")
+	lr := F(P.Func("server/core", "loadRegions"))
+	c.need(rule, fn, "regionLoaded = 1", func(x ssa.Instruction) bool {
+		st, ok := x.(*ssa.Store)
+		return ok && fieldOfAddr(st.Addr) == loaded && !isConstInt(0)(st.Val)
+	}, []Ev{newOkEv(fn, "ok(loadRegions)", callMatcher(lr))}, all, "the regions are marked as loaded only after loadRegions succeeded")
+}
+
 // ruleWeightsAlwaysWritten: a store's weights are loaded back as "the key's
 // value, or 1.0 when there is no key"; so the last saved weight is loaded back
 // only if every SaveStoreWeight writes both keys — a value that is skipped
@@ -427,7 +441,7 @@ func ruleRegionBackendSelection(c *Ctx) {
 func init() {
 	register("C17", "Persisted stores and regions are loaded back completely and pruned consistently", func(c *Ctx) {
 		c.Group("C17/key-format", "all store/region key builders (storage, bootstrap, weights) render ids with the same zero-padded width and segments", func() { ruleKeyFormats(c) })
-		c.Group("C17/load-prunes", "loading deletes every region the callback reports from the backend being read, pages by last id + 1 and stops only on a short page; items live under their own id's key", func() { ruleLoadAndPrune(c) })
+		c.Group("C17/load-prunes", "loading deletes every region the callback reports from the backend being read, pages by last id + 1 and stops only on a short page; items live under their own id's key", func() { ruleLoadAndPrune(c); ruleLoadedOnceAfterSuccess(c) })
 		c.Group("C17/weights-written", "SaveStoreWeight writes both weight keys unconditionally", func() { ruleWeightsAlwaysWritten(c) })
 		c.Group("C17/storage-errors", "no storage function reports success after a kv call whose error was not found nil", func() { ruleStorageErrorDiscipline(c) })
 		c.Group("C17/backend-selection", "load, save and delete of region records select the backend by the same useRegionStorage test", func() { ruleRegionBackendSelection(c) })
